@@ -75,13 +75,17 @@ def oracleC06 (o : ImplObs) : OVerdict :=
       else
       match classifyEmacs cb with
       | .kill =>
+        -- a kill command that removes nothing reports no deletion and `Kill(_)` does not reset the
+        -- ring's last action: it is transparent (a yank / kill sequence around it stays open)
+        if nl == cb.line then go (k + 1) st rest else
         let start := match st.runStart with | some s => some s | none => if st.fresh then some cb.line else none
         -- a run that does not start from a fresh ring state extends an unknown slot
         let ring := if st.runStart.isNone && !st.fresh then none else st.ring
         go (k + 1) { st with runStart := start, ring, fresh := false, lastYank := none } rest
       | .neutral =>
         -- keeps an open kill sequence open: what the next kill joins is not determined by the property
-        go (k + 1) { st with runStart := none, ring := (if st.runStart.isSome then none else st.ring), lastYank := none } rest
+        -- (it does not end a yank either: `C-y C-l M-y` still pops, and the pop is judged for exactness)
+        go (k + 1) { st with runStart := none, ring := (if st.runStart.isSome then none else st.ring) } rest
       | .charDelete =>
         -- closes the run (the deleted character must not enter the kill)
         let st := closeRun st cb
@@ -193,6 +197,13 @@ def oracleC05 (hasCompleter : Bool) (histNonEmpty : Bool) (o : ImplObs) : OVerdi
         -- intermediate texts: vi is left to the correspondence with the model
         go (k + 1) seen none none rest
       else
+      -- a key the completion loop does not consume ends the loop and is then executed like any
+      -- other key (so that `Tab C-g C-r …` starts a search session properly)
+      let leftCompletion : Bool := match cb.keys, sub with
+        | [key], some none => !completionConsumes cb.mode key
+        | _, _ => false
+      let sub := if leftCompletion then none else sub
+      let since := if leftCompletion then none else since
       match cb.keys, sub with
       | [key], some (some saved) =>
         -- inside the search loop
@@ -202,10 +213,9 @@ def oracleC05 (hasCompleter : Bool) (histNonEmpty : Bool) (o : ImplObs) : OVerdi
         else if searchConsumes cb.mode key && (key != ⟨.backspace, 0⟩ || cb.positive) then
           go (k + 1) seen none sub rest
         else go (k + 1) seen none none rest      -- the search is accepted: one group; then the key runs
-      | [key], some none =>
-        -- possibly inside the completion loop
-        if completionConsumes cb.mode key then go (k + 1) seen none sub rest
-        else go (k + 1) seen none none rest
+      | [_], some none =>
+        -- possibly inside the completion loop, and the loop consumes this key
+        go (k + 1) seen none sub rest
       | _, _ =>
       let isUndo := classifyEmacs cb == .undo && cb.n == 1
       if isUndo then
